@@ -47,3 +47,4 @@ pub mod gen;
 pub mod damage;
 pub mod queries;
 pub mod ws;
+pub mod sema;
